@@ -21,7 +21,7 @@ HARNESSES = [
 ]
 JOBS = 8
 MANIFEST = {
-  'level_text': 'Bounded model checking of the lexer actions of the EXPRESS front end that own fixed buffers or copy token text (lexact.c, compiled by goto-cc with the flags of the real build): tail remarks and stand-alone remarks of every length up to 300 bytes against the real 256-byte remark buffer, string and encoded-string literals of every content within the byte bound; the pretty printer's formatting primitive raw() for every text length 0..300; CBMC built-in pointer/bounds checks are the memory-safety assertion, functional CHECKs pin the token values and the arguments handed to the diagnostics.',
+  'level_text': 'Bounded model checking of the lexer actions of the EXPRESS front end that own fixed buffers or copy token text (lexact.c, compiled by goto-cc with the flags of the real build): tail remarks and stand-alone remarks of every length up to 300 bytes against the real 256-byte remark buffer, string and encoded-string literals of every content within the byte bound; the formatting primitive raw() of the pretty printer for every text length 0..300; CBMC built-in pointer/bounds checks are the memory-safety assertion, functional CHECKs pin the token values and the arguments handed to the diagnostics.',
   'level_note': 'Trusted: CBMC, harness assumption that yytext has the shape the scanner rule guarantees. Outside the claim: the generated scanner and parser tables, the parser scope stack (20 nested scopes), resolver null-dereferences on invalid schemas, texts of 10^4 characters and more in the 10000-byte formatting buffers of exppp (an overflow for a break-point-free literal of >= 10000 characters was seen with the real tool; out of reach of the symbolic execution, see DESIGN.md), generator name buffers (see C18 for the Python generator), processing of the shipped schemas, bounded time.',
   'technique': 'CBMC bounded model checking (built-in memory-safety checks) of goto-cc-compiled lexact.c with symbolic token lengths and bytes; ASan replay',
   'design_ref': 'DESIGN.md section 2, C06',
